@@ -12,7 +12,7 @@ class ModularMixin:
         loc = self.bind_args(fi, args, kwargs, node)
         frame = Frame(None, dict(loc), fi.module)
         self.frames.append(frame)
-        saved = (self.old_heap, self.old_locals)
+        saved = (self.old_heap, self.old_locals, self.old_ghost)
         self.modular_used.add(fi.qualname)
         try:
             for g, d in C.ghost.items():
@@ -25,6 +25,7 @@ class ModularMixin:
                     ('%s@%s:%s' % (cl.label, fi.name, getattr(node, 'lineno', '?')), goal, cl.expr, cl.props or C.props))
             self.old_heap = self.heap.snapshot()
             self.old_locals = dict(frame.locals)
+            self.old_ghost = {'g_enc': self.g_enc, 'g_dec': self.g_dec}
             for target in (C.modifies or []):
                 self.havoc(target, frame)
             # outcome
@@ -38,7 +39,12 @@ class ModularMixin:
                     normal_cond = zand(normal_cond, znot(w))
             i = self.choose([normal_cond] + conds, 'modular:%s' % fi.name, names=['return'] + [rc.label for rc in alts])
             if i == 0:
-                result = self.sym_value(C.result, 'ret_' + fi.name) if C.result else None
+                if callable(C.result):
+                    result = C.result(self, frame.locals)
+                elif C.result and C.result.startswith('expr:'):
+                    result = self.spec_eval(ast.parse(C.result[5:], mode='eval').body)
+                else:
+                    result = self.sym_value(C.result, 'ret_' + fi.name) if C.result else None
                 frame.locals['result'] = result
                 for g, expr in C.ghost_update.items():
                     frame.locals[g] = self.spec_eval(ast.parse(expr, mode='eval').body)
@@ -55,7 +61,7 @@ class ModularMixin:
                 self.assume_spec(self.spec_bool(cl.ast))
             raise PyRaise(exc, self.origin(node))
         finally:
-            self.old_heap, self.old_locals = saved
+            self.old_heap, self.old_locals, self.old_ghost = saved
             self.frames.pop()
 
     def make_exception(self, name, node):
@@ -74,6 +80,12 @@ class ModularMixin:
 
     def havoc(self, target, frame):
         """target: 'field:<expr>.<attr>:<desc>' | 'mapdom:<expr>' | 'mapall:<expr>' | 'size:<expr>'"""
+        if '|' in target:
+            kind, expr, desc = target.split('|')
+            base, _, attr = expr.rpartition('.')
+            recv = self.spec_eval(ast.parse(base, mode='eval').body)
+            self.setattr(recv, attr, self.sym_value(desc, 'havoc_' + attr))
+            return
         kind, _, rest = target.partition(':')
         if kind == 'field':
             expr, _, desc = rest.rpartition(':')
